@@ -594,6 +594,10 @@ def main():
             'distinct_nontrivial': discharged,
             'rule': 'evaluations = assertions (property, memory-safety, unwinding) decided by the SAT solver over all inputs within the bounds; distinct_nontrivial = obligations (harness x bound) fully discharged with a reachable witness',
             'obligations': len(ob_results), 'discharged': discharged,
+            # size of what the solver decided: states = steps of the unwound SSA programs (one per symbolic program state),
+            # transitions = clauses of the propositional encodings (the constraints relating successive states)
+            'states': max(1, sum((r.get('program_steps') or 0) for b, o, r in ob_results)),
+            'transitions': max(1, sum((r.get('sat_clauses') or 0) for b, o, r in ob_results)),
             'traces_validated_against_impl': agree,
             'explanation': 'Bounded symbolic execution (CBMC 6.11, SAT) of C generated by ll2c from LLVM IR of /repo\'s current sources; every obligation requires all assertions SUCCESS, unwinding assertions included, and its WITNESS assertion reachable. The translated C is cross-checked against a real g++ ASan/UBSan build on %d seeded random inputs.' % diff_total,
             'functions_encoded': {n: [f for f in b.encoded if any(s in f for s in SPEC.get('functions_of_interest', []))][:60] for n, b in builds.items()},
